@@ -493,6 +493,7 @@ func checkC05(c *Ctx, r *Report) {
 	turnRule(c, r, "C05-turn")
 	hdrCheckRule(c, r, "C05-hdrcheck")
 	fieldOrderRule(c, r, "C05-fieldorder")
+	auxListRule(c, r, "C05-fwline")
 
 	// ---- C05-sid
 	r.Rule("C05-sid", 1, "handshake requires B2")
